@@ -6,16 +6,30 @@ Lemmas about the CSV model (C31): the reference reader inverts the writer.
 namespace VibeProof.Text.Csv
 
 /-- a cell that is written without quotes contains none of `,` `"` LF -/
-def plainChar (c : Char) : Bool := c ≠ ',' && c ≠ '"' && c ≠ '\n'
+def plainChar (c : Char) : Bool := c ≠ ',' && c ≠ '"' && c ≠ '\n' && c ≠ '\r'
 
 theorem needsQuote_false (v : Str) (h : needsQuote v = false) : v.all plainChar = true := by
-  induction v with
+  simp only [needsQuote, Bool.or_eq_false_iff, List.any_eq_false, decide_eq_true_eq] at h
+  obtain ⟨⟨⟨h1, h2⟩, h3⟩, h4⟩ := h
+  simp only [List.all_eq_true, plainChar, Bool.and_eq_true, decide_eq_true_eq]
+  intro c hc
+  exact ⟨⟨⟨h1 c hc, h2 c hc⟩, h3 c hc⟩, h4 c hc⟩
+
+theorem stripCr_noCr (l : Str) (h : ∀ x ∈ l, x ≠ '\r') : stripCr l = l := by
+  cases l with
   | nil => rfl
-  | cons c cs ih =>
-    simp only [needsQuote, List.any_cons, Bool.or_eq_false_iff, decide_eq_false_iff_not] at h
-    obtain ⟨⟨h1, h2⟩, h3⟩ := h
-    have := ih (by simp [needsQuote, h1.2, h2.2, h3.2])
-    simp [plainChar, h1.1, h2.1, h3.1, this]
+  | cons x xs =>
+    have hx : x ≠ '\r' := h x (by simp)
+    unfold stripCr
+    split
+    · rename_i heq; injection heq with h1 _; exact absurd h1 hx
+    · rfl
+
+theorem plain_noCr (v : Str) (h : v.all plainChar = true) : ∀ x ∈ v.reverse, x ≠ '\r' := by
+  intro x hx
+  have := (List.all_eq_true.mp h) x (by simpa using hx)
+  simp only [plainChar, Bool.and_eq_true, decide_eq_true_eq] at this
+  exact this.2
 
 /-- reading the characters of an unquoted cell -/
 theorem rRun_plain (v : Str) : ∀ (st : RSt) (acc : Str) (rest : Str), st.mode = .unq acc →
@@ -26,7 +40,7 @@ theorem rRun_plain (v : Str) : ∀ (st : RSt) (acc : Str) (rest : Str), st.mode 
   | cons c cs ih =>
     intro st acc rest hm hall
     simp only [List.all_cons, Bool.and_eq_true, plainChar, decide_eq_true_eq] at hall
-    obtain ⟨⟨⟨h1, h2⟩, h3⟩, hrest⟩ := hall
+    obtain ⟨⟨⟨⟨h1, h2⟩, h3⟩, _⟩, hrest⟩ := hall
     have hstep : rStep st c = .ok { st with mode := .unq (c :: acc) } := by
       simp [rStep, hm, h1, h2, h3]
     simp only [List.cons_append, rRun, hstep]
@@ -78,15 +92,17 @@ theorem rRun_cell (v : Str) (st : RSt) (hm : st.mode = .fieldStart) (sep : Char)
       · simp [rRun, rStep, hm]
       · simp [rRun, rStep, hm]
     | cons c cs =>
+      have hcr := stripCr_noCr _ (plain_noCr (c :: cs) hall)
       simp only [List.all_cons, Bool.and_eq_true, plainChar, decide_eq_true_eq] at hall
-      obtain ⟨⟨⟨h1, h2⟩, h3⟩, hrest⟩ := hall
+      obtain ⟨⟨⟨⟨h1, h2⟩, h3⟩, _⟩, hrest⟩ := hall
       have s0 : rStep st c = .ok { st with mode := .unq [c], fresh := false } := by
         simp [rStep, hm, h1, h2, h3]
       simp only [List.cons_append, rRun, s0]
       rw [rRun_plain cs _ [c] _ rfl (by simpa [plainChar] using hrest)]
+      simp only [List.reverse_cons] at hcr
       rcases hsep with h | h <;> subst h
       · simp [rRun, rStep, endCell]
-      · simp [rRun, rStep, endRow]
+      · simp [rRun, rStep, endRow, hcr]
 
 /-- reading one written record (at least one cell) -/
 theorem rRun_row (cells : List Str) (hne : cells ≠ []) : ∀ (st : RSt) (rest : Str),
